@@ -28,6 +28,25 @@ func init() {
 		if !bytes.HasPrefix(out, prefix) {
 			return "out-prefix-lost", "-", ""
 		}
+		// applied again with a nil destination: same bytes; the first result is not disturbed by callers writing into
+		// the spare capacity of later results
+		snap := append([]byte{}, out[len(prefix):]...)
+		for k := 0; k < 3; k++ {
+			o2, e2 := rw.Rewrite(nil, in)
+			if e2 != nil || !bytes.Equal(o2, snap) {
+				return "rewriter-not-reusable", "-", ""
+			}
+			ext := o2[:cap(o2)]
+			for i := len(o2); i < len(ext); i++ {
+				ext[i] = 0xAA
+			}
+			if len(o2) > 0 {
+				o2[len(o2)-1] ^= 0xFF
+			}
+		}
+		if !bytes.Equal(out[len(prefix):], snap) {
+			return "earlier-result-changed", "-", ""
+		}
 		return "ok:" + hx(out[len(prefix):]), "-", ""
 	}
 	ops["proto.template"] = opTemplate
@@ -416,6 +435,23 @@ func opTemplate(a []string) (string, string, string) {
 	}
 	if !bytes.Equal(in, inCopy) || string(tmplCopy) != tj {
 		return "input-or-template-modified", "ok", ""
+	}
+	// a rewriter is reusable: applying it again (to this and to another message, into nil and into a spare buffer) gives the
+	// same bytes, and outputs already handed out do not change (they share no memory with the template or each other)
+	snap := append([]byte{}, out...)
+	out2, err2 := rw.Rewrite(nil, in)
+	out3, _ := rw.Rewrite(make([]byte, 0, 4*len(in)+64), in)
+	other, _ := rw.Rewrite(nil, nil)
+	_ = append(other[:len(other):len(other)], 0xAA)
+	if cap(out2) > len(out2) {
+		ext := out2[:cap(out2)]
+		for i := len(out2); i < len(ext); i++ {
+			ext[i] = 0xAA // what a caller appending to its result would do
+		}
+	}
+	out4, _ := rw.Rewrite(nil, in)
+	if err2 != nil || !bytes.Equal(out2, snap) || !bytes.Equal(out3, snap) || !bytes.Equal(out4, snap) || !bytes.Equal(out, snap) {
+		return "rewriter-not-reusable", "ok", ""
 	}
 	got := reflect.New(t.Reflect())
 	if err := proto.Unmarshal(out, got.Interface()); err != nil {
